@@ -682,6 +682,26 @@ FLEET['G25'] = dict(
     values=['node'],
 )
 
+# regex shapes the library's automaton construction gets wrong (known finding F12, same root cause as F5): a loop over a
+# superset followed by a subset ([0-9]*[05]) and a loop followed by its own symbol (a+a). ONLY in C09's list, where the
+# deviation is classified as a known finding; every other property would judge it over the parser's own automaton anyway.
+FLEET['G26'] = dict(
+    terms=[
+        ('fives', T('regex', '[0-9]*[05]', 'fives', typed=True)),
+        ('aas', T('regex', 'a+a', 'aas')),
+        ('comma', T('char', ',')),
+    ],
+    nterms=['list', 'item'],
+    root='list',
+    rules=[
+        ('item', ['fives'], 'plain'),
+        ('list', ['item'], 'plain'),
+        ('item', ['aas'], 'plain'),
+        ('list', ['list', 'comma', 'item'], 'plain'),
+    ],
+    values=['node'],
+)
+
 # standalone regex matchers (regex::expr<P>)
 REGEXES = {
     'R1': 'ab*c',
